@@ -273,6 +273,8 @@ type zvwCodeTee struct {
 }
 
 func (t *zvwCodeTee) Write(p []byte) (int, error) {
+	// a response that never completes (e.g. a frame cut short) must not hang the harness: the caller gets a time-out
+	t.Conn.SetDeadline(time.Now().Add(8 * time.Second))
 	t.mu.Lock()
 	d := p
 	for len(d) > 0 {
@@ -424,7 +426,28 @@ func zvwX509Pool() []*x509.Certificate {
 var zvwRErrTexts = []string{"agent: failure", "yubiagent: not found", "fehler: schlüssel nicht gefunden", "エラー", "e", "error with \"quotes\" and \\ and \n newline",
 	"SUCCESS ", "success", strings.Repeat("long error text ", 300), "\xff\xfe binary \x00 text"}
 
-func zvwRndErr(r *mrand.Rand) error { return errors.New(zvwRErrTexts[r.Intn(len(zvwRErrTexts))]) }
+// zvwBoundSizes: payload sizes around the buffer sizes a framing layer is likely to use (4 KiB, 64 KiB: the sizes
+// themselves, the sizes minus the 4-byte length prefix, their neighbours).
+var zvwBoundSizes = []int{4091, 4092, 4093, 4094, 4095, 4096, 4097, 4098, 65531, 65532, 65533, 65534, 65535, 65536, 65537, 65538, 65539, 65540}
+
+// zvwSizedText: an error text of exactly n bytes (printable, so that it is neither empty nor the success marker).
+func zvwSizedText(r *mrand.Rand, n int) string {
+	if n < 1 {
+		n = 1
+	}
+	b := make([]byte, n)
+	for i := range b {
+		b[i] = byte('a' + r.Intn(26))
+	}
+	return string(b)
+}
+
+func zvwRndErr(r *mrand.Rand) error {
+	if r.Intn(4) == 0 { // a text whose frame (alone, or behind the 8 bytes of a slot response) has a boundary size
+		return errors.New(zvwSizedText(r, zvwBoundSizes[r.Intn(len(zvwBoundSizes))]-8*r.Intn(2)))
+	}
+	return errors.New(zvwRErrTexts[r.Intn(len(zvwRErrTexts))])
+}
 
 // zvwRndFwdCode: a message code of a raw request whose forwarding is compared: the OpenSSH requests the x/crypto
 // server does not implement (smartcard add / remove / add constrained, extension) and codes far away from the ones
@@ -437,6 +460,9 @@ func zvwRndFwdCode(r *mrand.Rand) byte {
 }
 
 func zvwRndSize(r *mrand.Rand, max int) int {
+	if max >= 65536 && r.Intn(4) == 0 {
+		return zvwBoundSizes[r.Intn(len(zvwBoundSizes))] - r.Intn(2) // (a request has its code byte in front)
+	}
 	switch r.Intn(10) {
 	case 0:
 		return 0
@@ -554,7 +580,11 @@ func (c *zvwRCtx) recOp(op string, a map[string]string) (lab zvwRLabel, vr strin
 	cl := c.pair.cl
 	fail := r.Intn(3) == 0
 	var sc zvwRecScript
-	if fail {
+	if c.kind >= 0 && c.kind < len(zvwBoundSizes) && (op == "ahc_s" || op == "wait") {
+		// exported cases: the error text (= the whole response) has every boundary size once
+		fail = true
+		sc.err = errors.New(zvwSizedText(r, zvwBoundSizes[c.kind]))
+	} else if fail {
 		sc.err = zvwRndErr(r)
 	}
 	var cerr error
@@ -748,10 +778,16 @@ func (c *zvwRCtx) recOp(op string, a map[string]string) (lab zvwRLabel, vr strin
 			if c.kind >= 0 {
 				shape = []string{"cert", "err", "both", "neither"}[c.kind%4] // exported cases walk all four
 			}
+			if c.kind >= 4 {
+				shape = "err" // ... and then an error text that gives the response every boundary size
+			}
 			fail = shape == "err" || shape == "both"
 			sc.err = nil
 			if fail {
 				sc.err = zvwRndErr(r)
+			}
+			if c.kind >= 4 && c.kind-4 < len(zvwBoundSizes) {
+				sc.err = errors.New(zvwSizedText(r, zvwBoundSizes[c.kind-4]-8)) // 4 bytes empty certificate + 4 bytes length in front
 			}
 			if shape == "cert" || shape == "both" {
 				sc.cert = zvwX509Pool()[r.Intn(len(zvwX509Pool()))]
@@ -779,6 +815,18 @@ func (c *zvwRCtx) recOp(op string, a map[string]string) (lab zvwRLabel, vr strin
 			req := append([]byte{zvwRndFwdCode(r)}, zvwRndBytes(r, zvwRndSize(r, 65536))...)
 			if !fail {
 				sc.reply = zvwRndBytes(r, zvwRndSize(r, 65536))
+			}
+			if c.kind >= 0 && c.kind < 2*len(zvwBoundSizes) {
+				// exported cases: every boundary size once as request size and once as response size
+				n := zvwBoundSizes[c.kind%len(zvwBoundSizes)]
+				fail, sc.err = false, nil
+				if c.kind < len(zvwBoundSizes) {
+					req = append([]byte{zvwRndFwdCode(r)}, zvwRndBytes(r, n-1)...)
+					sc.reply = zvwRndBytes(r, zvwRndSize(r, 300))
+				} else {
+					req = append([]byte{zvwRndFwdCode(r)}, zvwRndBytes(r, zvwRndSize(r, 300))...)
+					sc.reply = zvwRndBytes(r, n)
+				}
 			}
 			c.rec.set(sc)
 			vr = fmt.Sprintf("code%d-req%d-reply%d", req[0], len(req), len(sc.reply))
@@ -1279,8 +1327,14 @@ func TestVerifRpc(t *testing.T) {
 		if (plan.Cases[i].Op == "ahc_s" || plan.Cases[i].Op == "ahc_l") && reps < len(zvwRKinds) {
 			reps = len(zvwRKinds) // every key type
 		}
-		if (plan.Cases[i].Op == "readslot" || plan.Cases[i].Op == "attestslot") && reps < 4 {
-			reps = 4 // every result shape
+		if op := plan.Cases[i].Op; (op == "readslot" || op == "attestslot") && reps < 4+len(zvwBoundSizes) {
+			reps = 4 + len(zvwBoundSizes) // every result shape, every boundary size of the response
+		}
+		if op := plan.Cases[i].Op; (op == "ahc_s" || op == "wait") && reps < len(zvwBoundSizes)+2 {
+			reps = len(zvwBoundSizes) + 2
+		}
+		if plan.Cases[i].Op == "forward" && reps < 2*len(zvwBoundSizes)+2 {
+			reps = 2*len(zvwBoundSizes) + 2
 		}
 		for r := 0; r < reps; r++ {
 			c := plan.Cases[i]
